@@ -361,6 +361,13 @@ func (c *Config) validateCircuitBreaker() error {
 		if c.CircuitBreaker.IntervalSeconds <= 0 {
 			return fmt.Errorf("circuit breaker interval must be positive (got %d)", c.CircuitBreaker.IntervalSeconds)
 		}
+		if c.CircuitBreaker.MaxRequests < 0 {
+			return fmt.Errorf("circuit breaker max requests must be non-negative (got %d)", c.CircuitBreaker.MaxRequests)
+		}
+		// max_requests == 0 means "default" (as many trials as success_threshold needs)
+		if c.CircuitBreaker.MaxRequests > 0 && c.CircuitBreaker.SuccessThreshold > c.CircuitBreaker.MaxRequests {
+			return fmt.Errorf("circuit breaker success threshold (%d) must not exceed max requests (%d): the breaker could never close", c.CircuitBreaker.SuccessThreshold, c.CircuitBreaker.MaxRequests)
+		}
 	}
 	return nil
 }
